@@ -284,8 +284,9 @@ def generate(seed, tier="quick"):
                 variant = " " + variant
             if variant != entry["text"]:
                 pool.append(dict(entry, text=variant))
-    n_clients = rnd.choice([1, 1, 2, 2, 3, 4])
-    total_ops = rnd.randint(3, 40)
+    big = tier == "thorough" and seed % 4 == 0  # longer histories for a quarter of the thorough runs
+    n_clients = rnd.choice([2, 3, 4, 6] if big else [1, 1, 2, 2, 3, 4])
+    total_ops = rnd.randint(30, 120) if big else rnd.randint(3, 40)
     flood = rnd.random() < (0.04 if tier == "quick" else 0.06)
     requests = []
     for index in range(n_clients):
